@@ -368,6 +368,45 @@ def check_copies(ctx):
         problems.append("re-binds the interface's parameter array: %s (a pre-built interface stops following Model.set_parameter)" % src(c))
     ctx.ob('R8.4-work-on-copies', 'DeterministicSimulator', not problems, ctx.loc('simulator', f),
            'the integrator starts from a copy of the initial state and never re-binds the interface arrays', '; '.join(problems))
+    # what is written back into the parameter array the interface shares with the model (to undo what rules did while integrating)
+    # is a copy of that array taken in this very call, before the integration - never something kept from an earlier run
+    problems = []
+    fresh = ('sim.py_get_param_values().copy()', 'sim.get_param_values().copy()', 'np.array(sim.py_get_param_values())',
+             'np.copy(sim.py_get_param_values())', 'np.array(sim.get_param_values())', 'np.copy(sim.get_param_values())')
+    alldefs = {}
+    for n in ast.walk(f):
+        if isinstance(n, (ast.Assign, ast.AnnAssign)) and getattr(n, 'value', None) is not None:
+            for t in (n.targets if isinstance(n, ast.Assign) else [n.target]):
+                if isinstance(t, ast.Name):
+                    alldefs.setdefault(t.id, []).append(n)
+    ode = [n for n in ast.walk(f) if isinstance(n, ast.Call) and src(n.func) in ('odeint', 'scipy.integrate.odeint')]
+    first_ode = min((n.lineno for n in ode), default=None)
+    stores = []
+    for n in ast.walk(f):
+        if isinstance(n, ast.Call) and src(n.func) in ('np.copyto', 'numpy.copyto') and len(n.args) >= 2 and \
+                src(n.args[0]).replace(' ', '') in ('sim.py_get_param_values()', 'sim.get_param_values()'):
+            stores.append((n, n.args[1]))
+        if isinstance(n, ast.Assign) and isinstance(n.targets[0], ast.Subscript) and \
+                src(n.targets[0].value).replace(' ', '') in ('sim.py_get_param_values()', 'sim.get_param_values()'):
+            stores.append((n, n.value))
+    for n, v in stores:
+        v = util.strip_cast(v)
+        if not isinstance(v, ast.Name):
+            if src(v).replace(' ', '') not in fresh:
+                problems.append('the parameter array is overwritten with %s' % src(v))
+            continue
+        ds = alldefs.get(v.id, [])
+        bad = [d for d in ds if src(util.strip_cast(d.value)).replace(' ', '') not in fresh]
+        if not ds or bad:
+            problems.append('the parameter array is overwritten with %s, which can be %s - not a copy of the parameters taken in this call'
+                            % (v.id, src(bad[0].value) if bad else 'an argument'))
+        elif first_ode is not None and any(d.lineno > first_ode for d in ds):
+            problems.append('the reference copy %s is taken after the integration has started' % v.id)
+        elif any(not util.guards_of(d, f) <= util.guards_of(n, f) for d in ds):
+            problems.append('the reference copy %s is taken under a condition that need not hold where it is written back' % v.id)
+    ctx.ob('R8.4-work-on-copies', 'DeterministicSimulator/parameters-restored', not problems, ctx.loc('simulator', f),
+           'parameters written back after a deterministic run are a copy taken in the same call before the integration (%d write-backs)' % len(stores),
+           '; '.join(problems))
     return f
 
 
